@@ -4,6 +4,7 @@ import ModbusModel.Props.C01
 import ModbusModel.Lemmas.ServeEnd
 import ModbusModel.Lemmas.ServeFault
 import ModbusModel.Lemmas.ServeBad
+import ModbusModel.Lemmas.ServeWrites
 /-
   C14 – A server connection ends cleanly or with one error report; the server lives on.
 -/
@@ -405,6 +406,148 @@ example : decodeRequest [3, 0] = .err .unexpectedEof := by decide +kernel
 example : (process .tcp (fun _ _ _ => .decline)
     { reads := [.data [0, 1, 0, 0, 0, 2, 7, 0x11, 0, 2, 0, 0], .data [0, 3, 1, 3, 0], .data [9, 9], .eof] }).1
     = .failed .unexpectedEof := by decide +kernel
+
+/-! ### a reply that cannot be written, after n served requests -/
+
+/-- **a TCP connection whose (n+1)-th reply cannot be written**: the transport takes the replies to
+    the first n requests (one whole write each), then request n+1 arrives, the service answers
+    it, and the transport takes only part of that reply – in the pieces and with the `Pending`s
+    of `ps` – before it fails (`Err(kf)`, or a zero-length write).  The task ends with exactly
+    that one error; the first n requests were served in order, request n+1 was handed to the
+    service once, a strict prefix of its reply reached the transport, and nothing that follows
+    on the stream (`after`, `extra`) is served. -/
+theorem connection_write_fault_tcp (svc : Service) (reqs : List (TcpHeader × Request)) (hdr : TcpHeader)
+    (req : Request) (after : Bytes) (t : Transport) (feeds extra : List ReadEv)
+    (ps : List (Option Nat)) (fault : WriteEv) (kf : ErrKind) (wrest : List WriteEv)
+    (rsp : ResponseResult) (frame : Bytes)
+    (hs : ∀ p ∈ reqs, requestPduSizeRaw p.2 ≤ 253) (hc : ∀ p ∈ reqs, p.2.canonical)
+    (hs1 : requestPduSizeRaw req ≤ 253) (hc1 : req.canonical)
+    (hw : t.writes = acceptScript (expectedTrace .tcp svc 0
+            (reqs.map fun p => ({ tid := p.1.transactionId, unit := p.1.unitId }, p.2)))
+          ++ (pieceEvents ps ++ fault :: wrest))
+    (hf : t.flushes = [])
+    (hreads : t.reads = feeds ++ extra) (hfeed : ∀ e ∈ feeds, e.isFeed = true)
+    (hdata : dataOf feeds = (reqs.map fun p => tcpFrame p.1 (encodeRequestPdu p.2)).flatten
+        ++ (tcpFrame hdr (encodeRequestPdu req) ++ after))
+    (henc : Encodable .tcp svc 0 (reqs.map fun p => ({ tid := p.1.transactionId, unit := p.1.unitId }, p.2)))
+    (hsvc : responseFor req.functionCode (svc reqs.length hdr.unitId req) = some rsp)
+    (he : serverEncode .tcp { tid := hdr.transactionId, unit := hdr.unitId } rsp = .ok frame)
+    (hk : fault.faultKind = some kf) (hpos : ∀ n, some n ∈ ps → 0 < n) (hacc : Modbus.accepted ps < frame.length) :
+    (process .tcp svc t).1 = .failed kf
+    ∧ ∃ effs, (process .tcp svc t).2.1
+          = expectedTrace .tcp svc 0 (reqs.map fun p => ({ tid := p.1.transactionId, unit := p.1.unitId }, p.2))
+            ++ [.call hdr.unitId req] ++ effectsToEvents effs
+        ∧ writtenBytes effs = frame.take (Modbus.accepted ps) := by
+  have hitems : (reqs.map fun p => tcpFrame p.1 (encodeRequestPdu p.2)).map tcpServerFraming.item
+      = reqs.map fun p => ({ tid := p.1.transactionId, unit := p.1.unitId }, p.2) := by
+    rw [List.map_map]
+    apply List.map_congr_left
+    intro p hp
+    have h3 := server_decodes_request_tcp p.1 p.2 [] (hs p hp) (hc p hp)
+    simp only [List.append_nil] at h3
+    simp [tcpServerFraming, Framing.ofStrict, h3]
+  have hitem : tcpServerFraming.item (tcpFrame hdr (encodeRequestPdu req))
+      = ({ tid := hdr.transactionId, unit := hdr.unitId }, req) := by
+    have h3 := server_decodes_request_tcp hdr req [] hs1 hc1
+    simp only [List.append_nil] at h3
+    simp [tcpServerFraming, Framing.ofStrict, h3]
+  have hv : ∀ y ∈ (reqs.map fun p => tcpFrame p.1 (encodeRequestPdu p.2)), tcpServerFraming.Valid y := by
+    intro y hy
+    obtain ⟨p, hp, rfl⟩ := List.mem_map.mp hy
+    exact ⟨p.1, p.2, hs p hp, hc p hp, rfl⟩
+  have hne : ∀ y ∈ (reqs.map fun p => tcpFrame p.1 (encodeRequestPdu p.2)), y ≠ [] := by
+    intro y hy
+    obtain ⟨p, _, rfl⟩ := List.mem_map.mp hy
+    simp [tcpFrame, be16]
+  have hlen : (reqs.map fun p => tcpFrame p.1 (encodeRequestPdu p.2)).length = reqs.length := by simp
+  have hxv : tcpServerFraming.Valid (tcpFrame hdr (encodeRequestPdu req)) := ⟨hdr, req, hs1, hc1, rfl⟩
+  have hxne : tcpFrame hdr (encodeRequestPdu req) ≠ [] := by simp [tcpFrame, be16]
+  have hw' : t.writes = acceptScript (expectedTrace .tcp svc 0
+        ((reqs.map fun p => tcpFrame p.1 (encodeRequestPdu p.2)).map tcpServerFraming.item))
+      ++ (pieceEvents ps ++ fault :: wrest) := by rw [hitems]; exact hw
+  have henc' : Encodable .tcp svc 0 ((reqs.map fun p => tcpFrame p.1 (encodeRequestPdu p.2)).map tcpServerFraming.item) := by
+    rw [hitems]; exact henc
+  have hsvc' : responseFor (tcpServerFraming.item (tcpFrame hdr (encodeRequestPdu req))).2.functionCode
+      (svc (reqs.map fun p => tcpFrame p.1 (encodeRequestPdu p.2)).length
+        (tcpServerFraming.item (tcpFrame hdr (encodeRequestPdu req))).1.unit (tcpServerFraming.item (tcpFrame hdr (encodeRequestPdu req))).2) = some rsp := by
+    rw [hitem, hlen]; exact hsvc
+  have he' : serverEncode .tcp (tcpServerFraming.item (tcpFrame hdr (encodeRequestPdu req))).1 rsp = .ok frame := by
+    rw [hitem]; exact he
+  have H0 := process_serves_then_write_fault .tcp tcpServerFraming svc
+    (reqs.map fun p => tcpFrame p.1 (encodeRequestPdu p.2)) (tcpFrame hdr (encodeRequestPdu req)) after
+    t feeds extra ps fault kf wrest rsp frame
+  have H := H0 hv hne hxv hxne hw' hf hreads hfeed hdata henc' hsvc' he' hk hpos hacc
+  rw [hitems, hitem] at H
+  exact H
+
+/-- **the same on an RTU connection** (RTU-over-TCP, serial) -/
+theorem connection_write_fault_rtu (svc : Service) (reqs : List (UInt8 × Request)) (slave : UInt8)
+    (req : Request) (after : Bytes) (t : Transport) (feeds extra : List ReadEv)
+    (ps : List (Option Nat)) (fault : WriteEv) (kf : ErrKind) (wrest : List WriteEv)
+    (rsp : ResponseResult) (frame : Bytes)
+    (hs : ∀ p ∈ reqs, requestPduSizeRaw p.2 ≤ 253) (hc : ∀ p ∈ reqs, ∀ fc d, p.2 ≠ .custom fc d)
+    (hs1 : requestPduSizeRaw req ≤ 253) (hc1 : ∀ fc d, req ≠ .custom fc d)
+    (hw : t.writes = acceptScript (expectedTrace .rtu svc 0 (reqs.map fun p => ({ tid := 0, unit := p.1 }, p.2)))
+          ++ (pieceEvents ps ++ fault :: wrest))
+    (hf : t.flushes = [])
+    (hreads : t.reads = feeds ++ extra) (hfeed : ∀ e ∈ feeds, e.isFeed = true)
+    (hdata : dataOf feeds = (reqs.map fun p => rtuFrame p.1 (encodeRequestPdu p.2)).flatten
+        ++ (rtuFrame slave (encodeRequestPdu req) ++ after))
+    (henc : Encodable .rtu svc 0 (reqs.map fun p => ({ tid := 0, unit := p.1 }, p.2)))
+    (hsvc : responseFor req.functionCode (svc reqs.length slave req) = some rsp)
+    (he : serverEncode .rtu { tid := 0, unit := slave } rsp = .ok frame)
+    (hk : fault.faultKind = some kf) (hpos : ∀ n, some n ∈ ps → 0 < n) (hacc : Modbus.accepted ps < frame.length) :
+    (process .rtu svc t).1 = .failed kf
+    ∧ ∃ effs, (process .rtu svc t).2.1
+          = expectedTrace .rtu svc 0 (reqs.map fun p => ({ tid := 0, unit := p.1 }, p.2))
+            ++ [.call slave req] ++ effectsToEvents effs
+        ∧ writtenBytes effs = frame.take (Modbus.accepted ps) := by
+  have hitems : (reqs.map fun p => rtuFrame p.1 (encodeRequestPdu p.2)).map rtuServerFraming.item
+      = reqs.map fun p => ({ tid := 0, unit := p.1 }, p.2) := by
+    rw [List.map_map]
+    apply List.map_congr_left
+    intro p hp
+    have h3 := server_decodes_request_rtu {} p.1 p.2 [] (hs p hp) (hc p hp)
+    simp only [List.append_nil] at h3
+    simp [rtuServerFraming, Framing.ofStrict, h3]
+  have hitem : rtuServerFraming.item (rtuFrame slave (encodeRequestPdu req)) = ({ tid := 0, unit := slave }, req) := by
+    have h3 := server_decodes_request_rtu {} slave req [] hs1 hc1
+    simp only [List.append_nil] at h3
+    simp [rtuServerFraming, Framing.ofStrict, h3]
+  have hv : ∀ y ∈ (reqs.map fun p => rtuFrame p.1 (encodeRequestPdu p.2)), rtuServerFraming.Valid y := by
+    intro y hy
+    obtain ⟨p, hp, rfl⟩ := List.mem_map.mp hy
+    exact ⟨p.1, p.2, hs p hp, hc p hp, rfl⟩
+  have hne : ∀ y ∈ (reqs.map fun p => rtuFrame p.1 (encodeRequestPdu p.2)), y ≠ [] := by
+    intro y hy
+    obtain ⟨p, _, rfl⟩ := List.mem_map.mp hy
+    simp [rtuFrame]
+  have hlen : (reqs.map fun p => rtuFrame p.1 (encodeRequestPdu p.2)).length = reqs.length := by simp
+  have hxv : rtuServerFraming.Valid (rtuFrame slave (encodeRequestPdu req)) := ⟨slave, req, hs1, hc1, rfl⟩
+  have hxne : rtuFrame slave (encodeRequestPdu req) ≠ [] := by simp [rtuFrame]
+  have hw' : t.writes = acceptScript (expectedTrace .rtu svc 0
+        ((reqs.map fun p => rtuFrame p.1 (encodeRequestPdu p.2)).map rtuServerFraming.item))
+      ++ (pieceEvents ps ++ fault :: wrest) := by rw [hitems]; exact hw
+  have henc' : Encodable .rtu svc 0 ((reqs.map fun p => rtuFrame p.1 (encodeRequestPdu p.2)).map rtuServerFraming.item) := by
+    rw [hitems]; exact henc
+  have hsvc' : responseFor (rtuServerFraming.item (rtuFrame slave (encodeRequestPdu req))).2.functionCode
+      (svc (reqs.map fun p => rtuFrame p.1 (encodeRequestPdu p.2)).length
+        (rtuServerFraming.item (rtuFrame slave (encodeRequestPdu req))).1.unit (rtuServerFraming.item (rtuFrame slave (encodeRequestPdu req))).2) = some rsp := by
+    rw [hitem, hlen]; exact hsvc
+  have he' : serverEncode .rtu (rtuServerFraming.item (rtuFrame slave (encodeRequestPdu req))).1 rsp = .ok frame := by
+    rw [hitem]; exact he
+  have H0 := process_serves_then_write_fault .rtu rtuServerFraming svc
+    (reqs.map fun p => rtuFrame p.1 (encodeRequestPdu p.2)) (rtuFrame slave (encodeRequestPdu req)) after
+    t feeds extra ps fault kf wrest rsp frame
+  have H := H0 hv hne hxv hxne hw' hf hreads hfeed hdata henc' hsvc' he' hk hpos hacc
+  rw [hitems, hitem] at H
+  exact H
+
+-- non-vacuity: one request served, the reply to the second one cut after 3 + 2 bytes by a broken pipe
+example : (process .tcp (fun _ _ _ => .reply (.readCoils [true, false, true, false, false, false, false, false]))
+    { reads := [.data [0, 1, 0, 0, 0, 6, 7, 1, 0, 0, 0, 8], .data [0, 2, 0, 0, 0, 6, 7, 1, 0, 0, 0, 8, 0, 3]],
+      writes := [.accept 10, .accept 3, .pending, .accept 2, .err .brokenPipe] }).1 = .failed .brokenPipe := by
+  decide +kernel
 
 -- non-vacuity
 example : serve [.accepted 0, .rejected, .accepted 1, .setupFailed (.injected 3), .accepted 2]
